@@ -328,6 +328,10 @@ def handle (st : DState) (ws : List String) : String × DState :=
           pure s!"{fwd} {rev}"
   | ["stream", cfgs, lim, _chunk, hex] =>
       pure (streamLoop (fun bs => run (cfgOfBits cfgs.toNat!) lim.toNat! bs) (unhex hex) 0 40 "")
+  | ["streamf", cfgs, lim, _chunk, fhex, hex] =>
+      -- successive calls with a filter: what is discarded is skipped, and must be skipped exactly
+      let cfg := cfgOfBits cfgs.toNat!
+      pure (streamLoop (fun bs => frun cfg lim.toNat! (filterOf fhex) bs) (unhex hex) 0 40 "")
   | ["depth", fmt, cfgs, lim, fhex, hex] =>
       let cfg := cfgOfBits cfgs.toNat!
       let flt : Flt := if fhex == "-" then .all else let (_, fv, _) := run cfg 20 (unhex fhex); .doc (some fv)
